@@ -916,7 +916,8 @@ fn process_fn_common(
                     // placed after the last statement; if the body ends in a tail expression the block goes just before it,
                     // which is only allowed when that expression is effect-free (a path, literal, or a constructor of such)
                     let mid = syn::Ident::new(&format!("vx_proof_end_{}", fn_idx), Span::call_site());
-                    let tail = matches!(b.stmts.last(), Some(syn::Stmt::Expr(_, None)));
+                    let unit_ret = matches!(sig.output, syn::ReturnType::Default);
+                    let tail = matches!(b.stmts.last(), Some(syn::Stmt::Expr(_, None))) && !unit_ret;
                     if tail {
                         fn pure(e: &syn::Expr) -> bool {
                             match e {
